@@ -27,6 +27,17 @@ type SiteClause struct {
 // named phi whose block dominates the current block (the innermost definition wins)
 func (f *Frame) siteEnv() *SpecEnv {
 	env := f.specEnv(f.cur, nil, nil)
+	// an address-taken local is in scope only below its allocation (a range variable of an
+	// earlier loop must not leak into later code)
+	for _, b := range f.fn.Blocks {
+		for _, ins := range b.Instrs {
+			if a, ok := ins.(*ssa.Alloc); ok && a.Comment != "" && !f.paramNames()[a.Comment] {
+				if b != f.curB && !b.Dominates(f.curB) {
+					delete(env.vars, a.Comment)
+				}
+			}
+		}
+	}
 	for _, b := range rpo(f.fn) {
 		if b != f.curB && !b.Dominates(f.curB) {
 			continue
@@ -121,6 +132,10 @@ func (f *Frame) siteCall(instr ssa.Instruction, c *ssa.CallCommon) {
 		if !siteTargetMatches(name, sc.Target) {
 			continue
 		}
+		if vc.siteSeen == nil {
+			vc.siteSeen = map[int]bool{}
+		}
+		vc.siteSeen[i] = true
 		env := f.siteEnv()
 		var names []string
 		if c.IsInvoke() {
@@ -139,8 +154,50 @@ func (f *Frame) siteCall(instr ssa.Instruction, c *ssa.CallCommon) {
 				env.vars["a_"+names[j]] = f.val(a)
 			}
 		}
-		goal := env.evalBool(sc.Expr)
+		goal, inScope := evalSiteClause(env, sc.Expr)
+		if !inScope {
+			// a local the clause names is not in scope at this call: the clause does not speak about
+			// this site (it must apply somewhere: see siteClauseCoverage)
+			continue
+		}
+		if vc.siteApplied == nil {
+			vc.siteApplied = map[int]int{}
+		}
+		vc.siteApplied[i]++
 		f.oblige(fmt.Sprintf("site:call.%d", i), goal, "every call of "+sc.Target+" in this function: "+sc.Text, instr.Pos(), sc.Tags, true)
+	}
+}
+
+// evaluate a site clause; ok=false when it names a local that is not in scope here
+func evalSiteClause(env *SpecEnv, e ast.Expr) (goal string, ok bool) {
+	defer func() {
+		if r := recover(); r != nil {
+			if ue, isU := r.(unsupportedErr); isU && strings.Contains(ue.msg, "unknown identifier") {
+				goal, ok = "", false
+				return
+			}
+			panic(r)
+		}
+	}()
+	return env.evalBool(e), true
+}
+
+// every callsite clause must have applied at one site at least; a clause that applies nowhere
+// (misspelt local, callee no longer called) is a failed obligation, not a silent pass
+func (vc *VC) siteClauseCoverage(fn *ssa.Function) {
+	if vc.contract == nil {
+		return
+	}
+	for i, sc := range vc.contract.Sites {
+		if sc.Kind != "callsite" || vc.siteApplied[i] > 0 {
+			continue
+		}
+		if !vc.siteSeen[i] {
+			continue // no call of that callee at all: nothing to say (as before)
+		}
+		ob := &Obligation{Name: fmt.Sprintf("%s/site:call.%d#scope", fn.String(), i), Kind: "site", Func: fn.String(), Goal: "false",
+			Desc: "the clause names locals that are in scope at none of the calls of " + sc.Target + ": " + sc.Text, Claimed: true, Tags: sc.Tags}
+		vc.sc.oblige(ob)
 	}
 }
 
